@@ -353,6 +353,9 @@ def run(ck):
             odd = [m_ for m_ in steps if m_ not in VIEWS_]
             b = H.binding_sites(es).get(v.get('hid')) if v.get('k') == 'Path' and v.get('res') == 'local' else None
             src = b['node'].get('e') if b is not None and b['kind'] == 'letcond' else (b['node'].get('init') if b is not None and b['kind'] == 'let' else None)
+            if b is not None and b['kind'] == 'arm':
+                mt = H.parents(es).get(id(b['node']))
+                src = mt.get('e') if mt is not None and mt.get('k') == 'Match' else None
             from_unwrap = src is not None and any(c.get('m') == 'unwrap_string' for c in H.calls_in(src))
             if odd or not from_unwrap:
                 bad.append('%s%s' % (pp(rr['args'][0], maxlen=50), '' if from_unwrap else ' (not the unwrapped string)'))
